@@ -556,3 +556,9 @@ def replay(ctx, doc):
 
 def probe_known(ctx, finding):
     return _judge(finding.get("replay", {})) is not None
+
+
+# the long-lived process: the same probe session after earlier sessions of the same server (props/history.py)
+from props import history as _history  # noqa: E402
+
+correspondence, search, replay = _history.attach(PID, correspondence, search, replay, pasts=['listing-failed-half-way', 'renamed-the-ancestor-of-a-directory-it-had-entered'])
